@@ -1166,8 +1166,9 @@ func (fc *funcContext) translateConversion(expr ast.Expr, desiredType types.Type
 				return fc.fixNumber(fc.translateExpr(expr), t)
 			}
 		case isFloat(t):
-			if t.Kind() == types.Float32 && exprType.Underlying().(*types.Basic).Kind() == types.Float64 {
-				return fc.formatExpr("$fround(%e)", expr)
+			if t.Kind() == types.Float32 && exprType.Underlying().(*types.Basic).Kind() != types.Float32 {
+				// Conversion from float64 or from an integer rounds to single precision.
+				return fc.formatExpr("$fround(%f)", expr)
 			}
 			return fc.formatExpr("%f", expr)
 		case isComplex(t):
